@@ -32,7 +32,7 @@ M = [
   "        if self.name not in marker_names:\n            return AnyMarker()\n\n        return self", "        return self"),
  ("from_ranges_one_element_union", "C05", "src/dep_logic/specifiers/union.py",
   "        elif ranges_number == 1:\n            return ranges[0]\n", "        elif ranges_number == 1 and ranges[0].min is None:\n            return ranges[0]\n"),
- ("any_eq_class_only", "C05,C13,C14", "src/dep_logic/specifiers/special.py",
+ ("any_eq_class_only", "C05,C14", "src/dep_logic/specifiers/special.py",
   "        return other.is_any()", "        return isinstance(other, AnySpecifier)"),
  ("wheel_dash_count", "C18", "src/dep_logic/tags/tags.py",
   "    if dashes not in (4, 5):", "    if dashes not in (4, 5, 6):"),
@@ -44,10 +44,10 @@ M = [
   "                if marker in new_markers:\n                    continue\n\n                if marker.is_empty():", "                if marker in new_markers:\n                    break\n\n                if marker.is_empty():"),
  ("from_specifier_pads_compat", "C02,C03,C11", "src/dep_logic/markers/single.py",
   "                and pkg_spec.operator != \"~=\"\n", ""),
- ("pyXY_exact_minor", "C08,C16", "src/dep_logic/tags/tags.py",
+ ("pyXY_exact_minor", "C08", "src/dep_logic/tags/tags.py",
   "            if major and minor and impl == \"py\":", "            if major and minor and impl == \"pyx\":"),
- ("compat_release_bound_off", "C04,C17", "src/dep_logic/specifiers/__init__.py",
-  "        max = _next_release(min, len(min.release) - 1)", "        max = _next_release(min, max(len(min.release) - 1, 2))"),
+ ("compat_release_bound_off", "C04", "src/dep_logic/specifiers/__init__.py",
+  "        max = _next_release(min, len(min.release) - 1)", "        max = _next_release(min, len(min.release) - 1 if len(min.release) > 2 else 2)"),
  ("mac_arm64_universal2_floor", "C09,C16", "src/dep_logic/tags/platform.py",
   "            for minor in range(16, 3, -1):\n                platform_tags.append(f\"macosx_10_{minor}_universal2\")", "            for minor in range(16, 8, -1):\n                platform_tags.append(f\"macosx_10_{minor}_universal2\")"),
  ("compare_minor_ignored", "C16", "src/dep_logic/tags/tags.py",
